@@ -150,6 +150,8 @@ def run_case(ctx, bt, case, collected, replaying=False):
         open_pos = [s for s in leaves(bt, k) if s.position != 0]
         if open_pos and not (fi and not isinstance(k, bt.core.SecurityBase)):
             key = "C06/non-target-open" + (":zero-value" if abs(pre_kids[k.name][0]) == 0.0 else "")
+            if fi and pre_kids[k.name][2] == 0.0 and type(k).__name__ in ("HedgeSecurity", "CouponPayingHedgeSecurity"):
+                key = "C06/non-target-open:hedge-zero-notional"   # Rebalance of a fixed-income strategy tests the notional, and a hedge's notional is 0 by definition
             ctx.violation(key, "non-target child %s still holds %r after Rebalance" % (k.name, [(s.name, s.position) for s in open_pos]), rd)
             return
     if fi:
